@@ -1072,7 +1072,6 @@ static void runGibbs(const GibbsCase& c, Ctx& ctx)
   int n = (int)c.lo.size();
   ctx.at("evalCovMatrixSymmetric");
   double kappa = kappaGibbs(c);
-  if (getenv("VERIF_TIMING")) diag(fmt("DBG kappa=%g", kappa));
   ctx.label(c.multiMono ? "algo:multimono" : (c.moving ? "algo:moving" : "algo:unique"));
   ctx.label(c.nburn == 0 ? "nburn:0" : "nburn:>0");
   ctx.label(fmt("ndim:%d", c.ndim));
@@ -1103,6 +1102,7 @@ static void runGibbs(const GibbsCase& c, Ctx& ctx)
       if (!ok)
       {
         std::string key = (hasLo != hasUp) ? "gibbs:bounds:one-sided" : (c.nburn == 0 ? "gibbs:bounds:nburn0" : "gibbs:bounds");
+        if (std::isnan(y)) key = (c.moving && !c.multiMono) ? "gibbs:nan:moving" : "gibbs:nan";
         ctx.fail(key, fmt("simulation %d sample %d = %.17g outside [%s, %s]", s + 1, i, y, hasLo ? fmt("%.17g", lo).c_str() : "NA",
                           hasUp ? fmt("%.17g", up).c_str() : "NA"));
         return;
@@ -1186,6 +1186,9 @@ static double qnorm(double p)
   }
   return 0.5 * (lo + hi);
 }
+
+// a conditioning gaussian equal to a threshold up to the rounding of yk + sk * ((t - yk) / sk)
+static bool nearThr(double y, double t) { return std::fabs(y - t) <= 1e-12 * (1. + std::fabs(t)); }
 
 struct PgsCase
 {
@@ -1337,12 +1340,12 @@ static void runPgs(const PgsCase& c, Ctx& ctx)
               for (int gi = 0; gi < ngrf && th.size() == 4; gi++)
               {
                 double yy = g[(size_t)(gi * c.nbsimu + s)][(size_t)t];
-                onThr = onThr || sameBits(yy, th[(size_t)(2 * gi)]) || sameBits(yy, th[(size_t)(2 * gi + 1)]);
+                onThr = onThr || nearThr(yy, th[(size_t)(2 * gi)]) || nearThr(yy, th[(size_t)(2 * gi + 1)]);
               }
             }
             ctx.fail(pk + (onThr ? "on-threshold:data-facies" : "data-facies"),
                      fmt("simulation %d at the node of datum %d: facies %g, observed %d%s", s + 1, k, got, f,
-                         onThr ? " (conditioning gaussian exactly on a threshold)" : ""));
+                         onThr ? " (conditioning gaussian on a threshold up to rounding)" : ""));
             return;
           }
           continue;
@@ -1362,9 +1365,8 @@ static void runPgs(const PgsCase& c, Ctx& ctx)
         bool onThr = false;
         {
           VectorDouble th = w.rule->getThresh(f);
-          for (int g = 0; g < ngrf && th.size() == 4; g++) onThr = onThr || sameBits(y[g], th[(size_t)(2 * g)]) || sameBits(y[g], th[(size_t)(2 * g + 1)]);
+          for (int g = 0; g < ngrf && th.size() == 4; g++) onThr = onThr || nearThr(y[g], th[(size_t)(2 * g)]) || nearThr(y[g], th[(size_t)(2 * g + 1)]);
         }
-        if (flib != f && getenv("VERIF_TIMING")) { VectorDouble th = w.rule->getThresh(f); diag(fmt("DBG f=%d y=%.17g th=%.17g %.17g %.17g %.17g", f, y[0], th[0], th[1], th[2], th[3])); }
         if (flib != f)
         { ctx.fail(pk + (onThr ? "on-threshold:data-gauss-rule" : "data-gauss-rule"), fmt("simulation %d: gaussians (%.17g, %.17g) at datum %d give facies %d, observed %d", s + 1, y[0], y[1], k, flib, f)); return; }
       }
